@@ -18,7 +18,7 @@ func init() {
 			"an old file that is still in use is renamed to its temporary name before it is handed to the deferred remover, so a crash leaves no replaced file under a loadable name; NOT decided: data races on non-mutex state, that every acknowledged point is returned (schedule-dependent values).",
 		Assumptions: append([]string{"locks are identified by the canonical receiver path of the Lock/RLock call inside one function; aliases through the heap are not followed"}, commonAssumptions...),
 		Technique:   "static analysis: must-hold lockset dataflow on the correlated-branch product of go/cfg, control-dependence guards, post-dominance pairing, lock-order graph",
-		Rules:       "C04.R1 R2 R3 R4 R6 R5(thorough)",
+		Rules:       "C04.R1 R2 R3 R4 R6 R7 R8 R5(thorough)",
 	}
 }
 
@@ -350,6 +350,60 @@ func c04(c *an.Ctx) {
 				}
 				if !covered {
 					r.Fail(f.Name+": slots reused without reset", c.P.Pos(f.Body.Pos()), "MemTable.Reset keeps the per-measurement slots (no fresh make) and MsInfo has no reset method that clears them")
+				}
+			}
+		}
+	}
+	// ---------------------------------------------------------------- R7
+	{
+		// A query's file view must be its own slice: the live per-measurement list is shifted in place by
+		// deleteFile and re-sorted by ReplaceFiles under the list lock, after the query released it.
+		r := c.Rule("C04.R7", "K-OWNERSHIP", I+":(*MmsTables).getFiles — the selected files are returned in a slice of the query's own, never a re-slice of the live list")
+		if f := fn(r, I+":MmsTables.getFiles"); f != nil {
+			files := obj(r, I+":TSSPFiles.files")
+			n := 0
+			for _, s := range f.Find(an.AnyReturn()).List {
+				rs := s.Node.(*ast.ReturnStmt)
+				for _, e := range rs.Results {
+					n++
+					base := ast.Unparen(e)
+					if se, ok := base.(*ast.SliceExpr); ok {
+						base = ast.Unparen(se.X)
+					}
+					if sel, ok := base.(*ast.SelectorExpr); ok && files != nil && f.Info.Uses[sel.Sel] == files {
+						r.Fail(f.Name+": view aliases the live list", c.P.Pos(rs.Pos()), "getFiles returns (a re-slice of) the live file list: a compaction or merge that replaces files afterwards shifts the array under the running query — files are read twice or missed, and references are released on files that were never taken")
+					}
+				}
+			}
+			r.AddSites(n)
+		}
+	}
+	// ---------------------------------------------------------------- R8
+	{
+		// While a measurement is marked "deleting", flushes skip it (its rows are dropped with the snapshot
+		// table and the log).  The mark therefore never outlives DropMeasurement: every way out clears it.
+		r := c.Rule("C04.R8", "K-ORDER(pairing)", E+":(*shard).DropMeasurement — the deleting mark set at entry is cleared on every way out (also when the drop is refused or fails)")
+		if f := fn(r, E+":shard.DropMeasurement"); f != nil {
+			set := f.Find(call(r, E+":shard.setMstDeleting"))
+			clr := f.Find(call(r, E+":shard.clearMstDeleting"))
+			if !r.Failed() {
+				r.AddSites(set.Len() + clr.Len())
+				if clr.Len() == 0 {
+					r.Fail(f.Name+": mark never cleared", c.P.Pos(f.Body.Pos()), "DropMeasurement never clears the deleting mark")
+				} else {
+					// deferred clear right after the set covers every exit; otherwise every path must pass a clear
+					deferred := clr.OnlyDeferred()
+					covered := false
+					for _, d := range deferred.List {
+						for _, st := range set.List {
+							if f.FPath(f.G.Vs[st.V].Succ, f.G.Exit, map[int]bool{d.V: true}, nil) == nil {
+								covered = true
+							}
+						}
+					}
+					if !covered {
+						f.FollowedBy(r, set, clr.Sync(), nil, "setMstDeleting ⇒ clearMstDeleting on every way out")
+					}
 				}
 			}
 		}
